@@ -1478,6 +1478,23 @@ fn format_generic_parameter(
     };
 
     let default_type = match (generic_parameter.equals(), generic_parameter.default_type()) {
+        // The default of a generic type pack `T... = (string)` is itself a type pack: its parentheses are not excess
+        (Some(equals), Some(default_type @ TypeInfo::Tuple { .. }))
+            if matches!(
+                generic_parameter.parameter(),
+                GenericParameterInfo::Variadic { .. }
+            ) && !equals.has_trailing_comments(CommentSearch::All)
+                && !default_type.has_leading_comments(CommentSearch::All) =>
+        {
+            let equals = fmt_symbol!(ctx, equals, " = ", shape);
+            let default_type = format_type_info_internal(
+                ctx,
+                default_type,
+                TypeInfoContext::new().mark_within_generic(),
+                shape,
+            );
+            Some((equals, default_type))
+        }
         (Some(equals), Some(default_type)) => {
             let equals = fmt_symbol!(ctx, equals, " = ", shape);
             let (equals, default_type) =
